@@ -237,6 +237,12 @@ def _d2o_event(idv, mol, lam, d, v, molecule=None, table=None):
     ev["ovd"] = _o2(f(v, d))
     ds, ms = nsf.D2O_match(mol, **kw)
     ev["dstar"], ev["msld"] = dec.enc(ds), dec.enc(ms)
+    import math
+    if math.isfinite(ds) and abs(ds) < 1e6:
+        # at the match point (which may lie outside [0, 1]) the solution SLD does not depend on the volume fraction
+        ev["om0"], ev["om1"], ev["omv"] = _o2(f(0.0, ds)), _o2(f(1.0, ds)), _o2(f(v, ds))
+        if molecule is not None:
+            ev["molmatch"] = dec.enc(molecule.D2Osld(volume_fraction=v, D2O_fraction=ds))
     if molecule is not None:
         ev["mol"] = {"match": dec.enc(molecule.D2Omatch), "sld": dec.enc(molecule.sld), "Dsld": dec.enc(molecule.Dsld),
                      "D2Osld": dec.enc(molecule.D2Osld(volume_fraction=v, D2O_fraction=d))}
